@@ -159,6 +159,47 @@ def execute (m : Model) (stored ctx : List Tuple) (o r : String) : Res :=
           | some t => .ok t
           | none => .err .relationNotFound
 
+/-! ### the property as an executable check (used by the driver on the *implementation's* tree, and
+proved of the model's tree in Props/C30) -/
+
+def strictAsc : List String → Bool
+  | [] => true
+  | [_] => true
+  | a :: b :: rest => decide (a < b) && strictAsc (b :: rest)
+
+def nodupB : List String → Bool
+  | [] => true
+  | a :: rest => !rest.contains a && nodupB rest
+
+/-- the valid tuples on `object#relation` among all (stored and contextual) tuples -/
+def validOn (m : Model) (all : List Tuple) (o r : String) : List Tuple :=
+  all.filter (fun t => t.obj = o && t.rel = r && validForRead m t)
+
+def sameSet (xs ys : List String) : Bool := xs.all ys.contains && ys.all xs.contains
+
+mutual
+/-- `conforms m all o r rw t`: the tree `t` mirrors the rewrite `rw` (kinds, child order, every node named
+`o#r`), its direct leaves list exactly the users of the valid tuples on `o#r` strictly ascending, its
+computed leaves name `o#computed`, its tuple-to-userset leaves name `o#tupleset` and list, without
+duplicates, exactly the usersets the valid tupleset tuples point to. -/
+def conforms (m : Model) (all : List Tuple) (o r : String) : Rewrite → Tree → Bool
+  | .this, .users n us =>
+    n = objRel o r && strictAsc us && sameSet us ((validOn m all o r).map (·.user))
+  | .computed cr, .computed n u => n = objRel o r && u = objRel o (if cr = "" then r else cr)
+  | .ttu ts cr, .ttu n tsn cs =>
+    let tsRel := if ts = "" then r else ts
+    n = objRel o r && tsn = objRel o tsRel && nodupB cs &&
+    sameSet cs ((validOn m all o tsRel).map (fun t => ttuTarget cr t.user))
+  | .union cs, .union n ks => n = objRel o r && conformsList m all o r cs ks
+  | .inter cs, .inter n ks => n = objRel o r && conformsList m all o r cs ks
+  | .diff b s, .diff n tb tsub => n = objRel o r && conforms m all o r b tb && conforms m all o r s tsub
+  | _, _ => false
+def conformsList (m : Model) (all : List Tuple) (o r : String) : List Rewrite → List Tree → Bool
+  | [], [] => true
+  | c :: cs, k :: ks => conforms m all o r c k && conformsList m all o r cs ks
+  | _, _ => false
+end
+
 /-! ### canonical rendering (same grammar as harness/c30) -/
 
 mutual
